@@ -67,6 +67,9 @@ def run(db, rep, tier):
                                         "tracker unless the user switched data off: nothing else (the flow's state, flags of the segment) "
                                         "can divert it", 1)
     r8_reach(db, rep)
+    rep.rule("R9-ctor-siblings", "the IPv4 and the IPv6 constructor of Flow use their parameters for the same members: a tracker that one "
+                                 "address family seeds with the initial sequence number is seeded by the other too", 1)
+    r9_ctor_siblings(db, rep)
     rep.explanation = ("Also: (R4) DataTracker::sequence_number(x) is called from Flow only under state_ == UNKNOWN - a retransmitted SYN "
                        "cannot rewind a flow that already delivered data; (R5) decision table of TCPStream::safe_insert. "
                        "Decides three structural clauses of C06: (R1) byte-counter accounting of DataTracker's out-of-order "
@@ -79,6 +82,54 @@ def run(db, rep, tier):
 
 
 # ---------------------------------------------------------------------------
+def r9_ctor_siblings(db, rep):
+    REC = "Tins::TCPIP::Flow"
+    ctors = [f for f in db.functions.values() if f.get("rec") == REC and f.get("kind") == "ctor" and f.get("body") and
+             len(f.get("params", ())) == 3 and not f.get("special")]
+    if len(ctors) < 2:
+        rep.analysis_broken("Flow: the two address-family constructors were not found (%d)" % len(ctors))
+        return
+
+    def uses(f):
+        """{member: set of parameter positions its initialiser / body assignment reads}"""
+        pos = dict((p_["var"], i) for i, p_ in enumerate(f["params"]))
+        out = {}
+        for i_ in f.get("inits", []):
+            if i_.get("member") and i_.get("written"):
+                ps = set(pos[x["var"]] for x in facts.walk(i_["e"]) if x["k"] == "DeclRefExpr" and x.get("var") in pos)
+                if ps:
+                    out.setdefault(i_["member"], set()).update(ps)
+        for x in facts.fn_nodes(f):
+            if x["k"] in ("BinaryOperator", "CXXOperatorCallExpr") and x.get("op") == "=":
+                l = facts.strip_all(x["c"][0] if x["k"] == "BinaryOperator" else x["c"][1])
+                r = x["c"][1] if x["k"] == "BinaryOperator" else x["c"][2]
+                if l["k"] == "MemberExpr" and l.get("isfield"):
+                    ps = set(pos[y["var"]] for y in facts.walk(r) if y["k"] == "DeclRefExpr" and y.get("var") in pos)
+                    if ps:
+                        out.setdefault(l["member"], set()).update(ps)
+        return out
+    ref = uses(ctors[0])
+    bad = None
+    for f in ctors[1:]:
+        u = uses(f)
+        for m in sorted(set(ref) | set(u)):
+            # the address itself goes to the member of its own family: compared by parameter position only for the others
+            if 0 in ref.get(m, set()) or 0 in u.get(m, set()):
+                continue
+            if ref.get(m, set()) != u.get(m, set()):
+                bad = (f if not u.get(m) else ctors[0], m, sorted(ref.get(m, set()) | u.get(m, set())))
+    key = "Flow::Flow"
+    if bad:
+        f_, m, ps = bad
+        rep.violation("R9-ctor-siblings", key, facts.loc(f_),
+                      "this constructor does not initialise `%s` from its parameter `%s`, its sibling for the other address family does: a "
+                      "flow of this family starts from 0 instead of the sequence number it was given, so every segment is buffered as "
+                      "future data or dropped as stale" % (m, f_["params"][ps[0]].get("name")))
+    else:
+        rep.ok("R9-ctor-siblings", key, facts.loc(ctors[0]), "%d constructors use their port / sequence-number parameters for the same members (%s)"
+               % (len(ctors), sorted(m for m in ref if 0 not in ref[m])))
+
+
 def r8_reach(db, rep):
     from vlib import formula
     fs = [f for f in db.fns_named("Tins::TCPIP::Flow::process_packet") if f.get("body")]
@@ -736,6 +787,17 @@ def r3_legacy(db, rep):
                     if y["k"] == "CXXMemberCallExpr" and y["c"][0].get("c") and facts.strip_all(y["c"][0]["c"][0]).get("var") == contvar:
                         src = y.get("cname")
             if src in ("begin", "cbegin"):
+                # a walk from begin() is a plain linear walk - unless it is the DRAIN loop, whose condition orders the keys
+                # against the current position in serial arithmetic: that one has to start AT the position (find /
+                # lower_bound), because begin() is the numerically smallest key, which after a 2^32 wrap is a future segment
+                lc_ = [c_ for c_ in loop["c"] if c_ is not None][0] if loop["k"] == "WhileStmt" else None
+                if lc_ is not None and any(y["k"] == "CallExpr" and y.get("cname") in ("compare_seq_numbers", "seq_compare") and
+                                           any(z["k"] == "DeclRefExpr" and z.get("var") == v for z in facts.walk(y)) for y in facts.walk(lc_)):
+                    n += 1
+                    rep.violation("R3-wrap", "generic_process:%s" % vname, facts.loc(f, decl[0]),
+                                  "the drain loop starts at begin() of the sequence-keyed fragment map instead of at the current position: "
+                                  "the map is ordered by raw 32-bit value, so once a segment from beyond the 2^32 wrap is buffered begin() is "
+                                  "that future segment, the loop ends at once and the data at the current position is never delivered")
                 continue
             bad = None
             nadv = 0
